@@ -1537,6 +1537,32 @@ fn calculate_stableswap_d(
     )
 }
 
+/// Verification hooks: thin public wrappers around private pure functions. Compiled only with
+/// `--features verif-hooks`; never part of a production build.
+#[cfg(feature = "verif-hooks")]
+pub mod verif_api {
+    use cosmwasm_std::{Decimal256, Uint128, Uint256, Uint512};
+    use mantra_dex_std::pool_manager::PoolInfo;
+
+    use crate::error::ContractError;
+
+    pub fn calculate_stableswap_d(
+        pool_info: &PoolInfo,
+        n_coins: Uint256,
+        amp: &u64,
+    ) -> Result<Decimal256, ContractError> {
+        super::calculate_stableswap_d(pool_info, n_coins, amp)
+    }
+
+    pub fn calculate_d_core(
+        amp_factor: &u64,
+        deposits: &[Uint128],
+        n_coins: Uint128,
+    ) -> Option<Uint512> {
+        super::calculate_d_core(amp_factor, deposits, n_coins)
+    }
+}
+
 #[cfg(test)]
 #[allow(
     clippy::unwrap_used,
